@@ -257,8 +257,12 @@ def features(a: dict, b: dict) -> dict:
         return strip(x["a"][0]) if x["k"] == "ann" else x
 
     def walk(x: dict, y: dict) -> None:
+        if strip(x)["k"] == "array" and y["k"] == "ann" and y["a"][0]["k"] != "array":
+            f["array_source_required_annotated"] = True      # Array[T] (maybe annotated further) against a merely
+            walk(strip(x), y["a"][0])                        # annotated type
+            return
         if x["k"] == "ann" and y["k"] != "ann":       # Annotated on the source side only: it is stripped
-            if strip(x)["k"] in unions and y["k"] in unions:
+            if strip(x)["k"] in unions:
                 f["source_annotated_union"] = True
             walk(x["a"][0], y)
             return
@@ -283,12 +287,11 @@ def features(a: dict, b: dict) -> dict:
             if y["k"] == "ann":
                 walk(x, y["a"][0])
             return
-        if x["k"] == "array" and y["k"] == "ann":     # Array[T] against a merely annotated type
-            f["array_source_required_annotated"] = True
+        if x["k"] == "array" and y["k"] == "ann":     # Array[S] against Annotated[Array[T], ..]
             walk(x, y["a"][0])
             return
         if x["k"] == "ann":
-            walk(x["a"][0], y["a"][0])
+            walk(x["a"][0], y["a"][0] if y["k"] == "ann" else y)
             return
         if x["k"] == "array" and y["k"] == "array":
             walk(x["a"][0], y["a"][0])
